@@ -20,7 +20,10 @@ RULE = ("MDP specs (n<=2 Cartesian, n=3 chain family; discounted, or undiscounte
         "exactly) x 4 admissible heuristics {bound, V*, V*+1/2, V*+1/2 on absorbing states only} x (randomize_action_order, "
         "randomize_nextstate_order) x ALL answers of the seeded generator (stateless exploration, full branching for n<=2, "
         "deviation bound for n=3). states/transitions = nodes/edges of the explored answer trees; an execution = one complete "
-        "LAO* run. Non-trivial = the instance has >= 2 distinct executions (answer sequences).")
+        "LAO* run. Non-trivial = the instance has >= 2 distinct executions (answer sequences). Plus a deep-graph leg: corridors of "
+        "5..8 (thorough ..10) states x 4 variants x dynamic_programming_iterations k in 1..3 (thorough ..5), one deterministic run "
+        "each (ancestor chains longer than k; runs in which the library's own 'policy iteration converged' assertion fires are "
+        "outside the statement and only counted).")
 ASSUMPTIONS = [
     "alphabet as C01; heuristics from a 4-element admissible menu",
     "random() draws are observed by LAO* only through comparisons (sort keys) -- any arithmetic on a draw is a harness error",
@@ -80,6 +83,28 @@ def items(tier, seed):
             it = build.with_ns_rewards(it)
         flags = [(i + seed) % 4] if tier == 'quick' else [(i + seed) % 4, (i + seed + 1 + (i // 4) % 3) % 4]
         yield (it, (i + seed) % len(SLAB), tuple(sorted(set(flags))))
+    for i, it in enumerate(corridors(tier)):
+        for k in (1, 2, 3) if tier == 'quick' else (1, 2, 3, 4, 5):
+            yield ('dpk', it, k, (i + k + seed) % len(SLAB))
+
+
+def corridors(tier):
+    """Deep solution graphs: corridors of 5..8 (thorough ..10) states whose ancestor chains are longer than the
+    dynamic-programming iteration budget k the planner is given (the budget bounds policy-iteration sweeps, not how
+    far a revision reaches).  Variants: plain, a costly shortcut at the root, a 1/4 chance of staying put."""
+    one = F(1)
+    for n in (5, 6, 7, 8) if tier == 'quick' else (5, 6, 7, 8, 9, 10):
+        for g in (F(9, 10), F(1)):
+            for variant in ('plain', 'shortcut', 'sticky', 'shortcut_mid'):
+                rows = []
+                for s in range(n - 1):
+                    fwd = ((s + 1, one),) if variant != 'sticky' else ((s + 1, F(3, 4)), (s, F(1, 4)))
+                    row = [('a', fwd, F(-1))]
+                    if (variant == 'shortcut' and s == 0) or (variant == 'shortcut_mid' and s == 1):
+                        row.append(('b', ((n - 1, one),), -F(2 * (n - 1 - s) - 1, 2)))       # half a step cheaper than walking
+                    rows.append(tuple(row))
+                rows.append((('a', ((n - 1, one),), F(0)),))
+                yield ('mdp', n, tuple(rows), (n - 1,), ((0, one),), g)
 
 
 def make_heuristic(kind, spec, V, mdp):
@@ -174,8 +199,54 @@ def judge(res, mdp, spec, V, r, item, ctx, listener_violations):
             bad('policy_return_suboptimal', {'return': got, 'optimal': want, 'pi': pi})
 
 
+def check_dpk(item, tier):
+    """One deterministic run per heuristic with a small dynamic-programming iteration budget.  The budget only limits
+    the number of policy-iteration sweeps of a revision (the library asserts that they sufficed -- if that assertion
+    fires the configuration is outside the statement and only counted); whenever the run completes, everything the
+    statement promises must hold."""
+    import traceback
+    from msdm.algorithms.laostar import LAOStar
+    r = Res()
+    _, spec_item, k, li = item
+    spec = Spec(spec_item)
+    V, Q = refmdp.optimal(spec)
+    with warnings.catch_warnings():
+        warnings.simplefilter('ignore')
+        np.seterr(all='ignore')
+        mdp = build.SpecMDP(spec, SLAB[li], ALAB[li])
+        for hk in ('bound', 'exact+half'):
+            h = make_heuristic(hk, spec, V, mdp)
+            ctx = {'heuristic': hk, 'dynamic_programming_iterations': k}
+            fps = []
+            for rep in range(2):
+                try:
+                    res = LAOStar(heuristic=h, seed=3, dynamic_programming_iterations=k, max_lao_star_iterations=400).plan_on(mdp)
+                except AssertionError as e:
+                    if traceback.extract_tb(e.__traceback__)[-1].name == '_policy_iteration':
+                        r.count('dp_budget_exhausted')
+                    else:
+                        r.violation('exception', dict(ctx, error=repr(e)[:300]), item)
+                    break
+                except np.linalg.LinAlgError as e:
+                    r.violation('exception', dict(ctx, error=repr(e)[:300]), item)
+                    break
+                r.count('executions')
+                r.count('budget_runs')
+                if rep == 0:
+                    judge(res, mdp, spec, V, r, item, ctx, [])
+                    r.outcome((spec_item, hk, k, fingerprint(res, mdp, spec)))
+                fps.append(fingerprint(res, mdp, spec))
+            if len(fps) == 2 and fps[0] != fps[1]:
+                r.violation('replay_nondeterministic', ctx, item)
+            if fps:
+                r.nontriv((spec_item, hk, k))
+    return r
+
+
 def check(item, tier):
     from msdm.algorithms.laostar import LAOStar, LAOStarEventListener
+    if item[0] == 'dpk':
+        return check_dpk(item, tier)
     r = Res()
     spec_item, li, flagset = item
     spec = Spec(spec_item)
